@@ -112,6 +112,15 @@ def check_predicates(run, case, src, ref, o, overlap, nb):
         ot, ob = O.ytop - oin[1] * O.py, O.ytop - (oin[1] + oin[3]) * O.py
         if not (o_lo <= g_lo and g_hi <= o_hi and ot >= gt and gb >= ob):
             bad.append(('paired in-windows do not cover the same ground', band, pin, oin))
+        # same ground, output windows: each edge of the other image's output window is the processing output window's edge rounded to
+        # the other grid - within half a pixel of it on the ground (both axes, whatever the pixel shape)
+        oout = sout if proc_ref else rout
+        q_lo, q_hi = P.x0 + pout[0] * P.px, P.x0 + (pout[0] + pout[2]) * P.px
+        w_lo, w_hi = O.x0 + oout[0] * O.px, O.x0 + (oout[0] + oout[2]) * O.px
+        qt, qb = P.ytop - pout[1] * P.py, P.ytop - (pout[1] + pout[3]) * P.py
+        wt, wb = O.ytop - oout[1] * O.py, O.ytop - (oout[1] + oout[3]) * O.py
+        if 2 * abs(w_lo - q_lo) > O.px or 2 * abs(w_hi - q_hi) > O.px or 2 * abs(wt - qt) > O.py or 2 * abs(wb - qb) > O.py:
+            bad.append(('paired out-windows do not cover the same ground (more than half a pixel apart)', band, pout, oout))
     ngap, ndbl = int((cover == 0).sum()), int((cover > 1).sum())
     if ngap or ndbl:
         rows = sorted(set(np.where(cover != 1)[1].tolist()))[:6]
@@ -137,6 +146,13 @@ def gen_case(run, i):
         k, dx, dy = 1024, rng.choice([1, 2, 3]), rng.choice([1, 2, 3])
         src = rasters.Grid(src.x0 * k + dx, src.ytop * k - dy, src.px * k, src.py * k, src.w, src.h, src.unit / k)
         ref = rasters.Grid(ref.x0 * k, ref.ytop * k, ref.px * k, ref.py * k, ref.w, ref.h, ref.unit / k)
+    if i % 10 == 3:
+        # non-square pixels (a geographic grid with different spacing in longitude and latitude; a 2:1 line scanner): rows twice as
+        # tall as the columns are wide in the source, or in the reference
+        if rng.random() < 0.5:
+            src = rasters.Grid(src.x0, src.ytop, src.px, src.py * 2, src.w, max(2, src.h // 2), src.unit)
+        else:
+            ref = rasters.Grid(ref.x0, ref.ytop, ref.px, ref.py * 2, ref.w, ref.h // 2 + 1, ref.unit)
     overlap = rng.choice([(0, 0), (0, 0), (1, 1), (2, 1), (3, 3), (1, 4), (5, 4)])
     nblk_exp = rng.choice([0, 1, 2, 3, 4, 5, 6])
     if overlap[0] > 2 or overlap[1] > 2:
@@ -167,6 +183,7 @@ def run(run: common.Run):
             continue
         run.evaluations += 1
         run.hist[f"family={case['family']}"] += 1
+        run.hist['non-square pixels'] += int(src.px != src.py or ref.px != ref.py)
         run.hist['sliver offsets (source edges within 1/700 pixel of reference pixel edges)'] += int(case['i'] % 10 == 7 and case['i'] >= 0)
         run.hist[f"proc_ref={o['proc_ref']}"] += 1
         nblk = len(o['blocks']) // case['nb']
